@@ -73,7 +73,7 @@ Proof. intros. unfold Confirms.crun, Confirms.crun_from. now rewrite fold_left_a
 Lemma cwf_step : forall s o, cwf s -> cwf (fst (cstep s o)).
 Proof.
   intros s o W.
-  destruct o as [v accts|v st|contract chain body timeout relayer|v nonce contract signer sg|nonce contract e|nonce contract]; simpl.
+  destruct o as [v accts|v st|contract chain body timeout relayer|v nonce contract signer sg|nonce contract e|nonce contract|nonce contract body']; simpl.
   - destruct (negb _); [exact W|]. destruct (collides _ _ _); simpl; auto.
   - exact W.
   - destruct W as [ND B]. split; simpl.
@@ -101,6 +101,12 @@ Proof.
     + now apply NoDup_map_filter.
     + apply Forall_forall. intros x Hx. apply filter_In in Hx as [Hx _].
       rewrite Forall_forall in B. auto.
+  - destruct (find_batch _ _ _) as [b|]; [|exact W].
+    destruct W as [ND B]. split; simpl.
+    + rewrite map_map. erewrite map_ext; [exact ND|].
+      intros x. destruct (b_nonce x =? nonce); reflexivity.
+    + apply Forall_forall. intros x Hx. apply in_map_iff in Hx as (y & <- & Hy).
+      rewrite Forall_forall in B. specialize (B _ Hy). destruct (b_nonce y =? nonce); exact B.
 Qed.
 
 Lemma cwf_run : forall ops, cwf (crun ops).
@@ -137,7 +143,7 @@ Proof.
   induction ops as [|o ops IH] using rev_ind; intros c Hin.
   - destruct Hin.
   - rewrite crun_snoc in *. pose proof (cwf_run ops) as W. set (s := crun ops) in *.
-    destruct o as [v accts|v st|contract chain body timeout relayer|v nonce contract signer sg|nonce contract e|nonce contract];
+    destruct o as [v accts|v st|contract chain body timeout relayer|v nonce contract signer sg|nonce contract e|nonce contract|nonce contract body'];
       simpl in *.
     + destruct (negb _); [eapply confirm_ok_extend; [|apply IH; exact Hin]; auto|].
       destruct (collides _ _ _); simpl in *; (eapply confirm_ok_extend; [|apply IH; exact Hin]); auto.
@@ -183,6 +189,16 @@ Proof.
       apply Z.eqb_eq in E. apply find_batch_some in EF as (H1 & N1 & C1).
       assert (b = b1) as -> by (apply (nodup_nonce_unique (cs_batches s)); [apply W|auto|auto|congruence]).
       unfold of_batch in Hf. rewrite <- En, <- Ec, N1, C1, !Z.eqb_refl in Hf. discriminate.
+    + destruct (find_batch (cs_batches s) contract nonce) as [b1|] eqn:EF;
+        [|eapply confirm_ok_extend; [|apply IH; exact Hin]; auto].
+      simpl in Hin. rewrite delete_confirms_eq in Hin.
+      apply filter_In in Hin as [Hc Hf]. apply negb_true_iff in Hf.
+      eapply confirm_ok_extend; [|apply IH; exact Hc]. simpl.
+      intros b Hb En Ec. apply in_map_iff. exists b. split; auto.
+      destruct (b_nonce b =? nonce) eqn:E; auto. exfalso.
+      apply Z.eqb_eq in E. apply find_batch_some in EF as (H1 & N1 & C1).
+      assert (b = b1) as -> by (apply (nodup_nonce_unique (cs_batches s)); [apply W|auto|auto|congruence]).
+      unfold of_batch in Hf. rewrite <- En, <- Ec, N1, C1, !Z.eqb_refl in Hf. discriminate.
 Qed.
 
 (** ** One confirmation per validator and per key for each batch *)
@@ -206,7 +222,7 @@ Proof.
   induction ops as [|o ops IH] using rev_ind.
   - split; constructor.
   - rewrite crun_snoc. set (s := crun ops) in *. destruct IH as [N1 N2].
-    destruct o as [v accts|v st|contract chain body timeout relayer|v nonce contract signer sg|nonce contract e|nonce contract];
+    destruct o as [v accts|v st|contract chain body timeout relayer|v nonce contract signer sg|nonce contract e|nonce contract|nonce contract body'];
       simpl.
     + destruct (negb _); [auto|]. destruct (collides _ _ _); simpl; auto.
     + auto.
@@ -224,6 +240,8 @@ Proof.
       destruct (0 <? b_est b); [auto|]. simpl. rewrite ?update_deletes, delete_confirms_eq. split; now apply NoDup_map_filter.
     + destruct (find_batch (cs_batches s) contract nonce) as [b|]; [|auto].
       simpl. rewrite ?remove_deletes, delete_confirms_eq. split; now apply NoDup_map_filter.
+    + destruct (find_batch (cs_batches s) contract nonce) as [b|]; [|auto].
+      simpl. rewrite delete_confirms_eq. split; now apply NoDup_map_filter.
 Qed.
 
 (** ** Confirmations are deleted when the checkpoint changes *)
@@ -238,7 +256,7 @@ Proof.
   assert (Same : In b' (cs_batches s) -> False).
   { intros H. assert (b' = b) as -> by (apply (nodup_nonce_unique (cs_batches s)); [apply W|auto|auto|congruence]).
     now apply Hne. }
-  destruct o as [v accts|v st|contract chain body timeout relayer|v nonce contract signer sg|nonce contract e|nonce contract];
+  destruct o as [v accts|v st|contract chain body timeout relayer|v nonce contract signer sg|nonce contract e|nonce contract|nonce contract body'];
     simpl in *.
   - destruct (negb _); [now destruct Same|]. destruct (collides _ _ _); simpl in *; now destruct Same.
   - now destruct Same.
@@ -260,24 +278,35 @@ Proof.
     now rewrite N1, C1.
   - destruct (find_batch (cs_batches s) contract nonce) as [b1|]; [|now destruct Same].
     simpl in *. apply filter_In in Hb' as [Hb' _]. now destruct Same.
+  - destruct (find_batch (cs_batches s) contract nonce) as [b1|] eqn:EF; [|now destruct Same].
+    simpl in *.
+    apply in_map_iff in Hb' as (x & Ex & Hx).
+    destruct (b_nonce x =? nonce) eqn:E; [|subst x; now destruct Same].
+    apply Z.eqb_eq in E. apply find_batch_some in EF as (H1 & N1 & C1).
+    assert (x = b1) as -> by (apply (nodup_nonce_unique (cs_batches s)); [apply W|auto|auto|congruence]).
+    subst b'. simpl. rewrite delete_confirms_eq in Hc. apply filter_In in Hc as [_ Hf]. apply negb_true_iff in Hf.
+    now rewrite N1, C1.
 Qed.
 
 (** ** Clearing is total: after an accepted UpdateBatchGasEstimate / cancel / executed NO confirmation of that batch is
     left, however many there were (the statement is over the whole confirmation store, no bound on its size). *)
 
 Theorem no_confirm_survives_clearing_all : forall ops o nonce contract,
-  (exists e, o = BUpdateEstimate nonce contract e) \/ o = BRemove nonce contract ->
+  (exists e, o = BUpdateEstimate nonce contract e) \/ o = BRemove nonce contract \/ (exists b', o = BRebody nonce contract b') ->
   snd (cstep (crun ops) o) = COk ->
   forall c, In c (cs_confirms (fst (cstep (crun ops) o))) -> of_batch nonce contract c = false.
 Proof.
   intros ops o nonce contract Ho Hok c Hc. set (s := crun ops) in *.
-  destruct Ho as [[e ->]| ->]; simpl in *.
+  destruct Ho as [[e ->]|[->|[b' ->]]]; simpl in *.
   - destruct (find_batch (cs_batches s) contract nonce) as [b|]; [|discriminate].
     destruct (0 <? b_est b); [discriminate|]. simpl in Hc.
     rewrite ?update_deletes, delete_confirms_eq in Hc.
     apply filter_In in Hc as [_ Hf]. now apply negb_true_iff in Hf.
   - destruct (find_batch (cs_batches s) contract nonce) as [b|]; [|discriminate]. simpl in Hc.
     rewrite ?remove_deletes, delete_confirms_eq in Hc.
+    apply filter_In in Hc as [_ Hf]. now apply negb_true_iff in Hf.
+  - destruct (find_batch (cs_batches s) contract nonce) as [b|]; [|discriminate]. simpl in Hc.
+    rewrite delete_confirms_eq in Hc.
     apply filter_In in Hc as [_ Hf]. now apply negb_true_iff in Hf.
 Qed.
 
@@ -299,7 +328,7 @@ Proof.
   induction ops as [|o ops IH] using rev_ind; intros c Hin.
   - destruct Hin.
   - rewrite crun_snoc in *. set (s := crun ops) in *.
-    destruct o as [v accts|v st|contract chain body timeout relayer|v nonce contract signer sg|nonce contract e|nonce contract];
+    destruct o as [v accts|v st|contract chain body timeout relayer|v nonce contract signer sg|nonce contract e|nonce contract|nonce contract body'];
       simpl in *.
     + destruct (negb _); [apply cbonded_extend, IH; exact Hin|].
       destruct (collides _ _ _); simpl in *; apply cbonded_extend, IH; exact Hin.
@@ -324,6 +353,9 @@ Proof.
       apply filter_In in Hin as [Hin _]. apply cbonded_extend, IH; exact Hin.
     + destruct (find_batch (cs_batches s) contract nonce) as [b1|]; [|apply cbonded_extend, IH; exact Hin].
       simpl in Hin. rewrite ?remove_deletes, delete_confirms_eq in Hin.
+      apply filter_In in Hin as [Hin _]. apply cbonded_extend, IH; exact Hin.
+    + destruct (find_batch (cs_batches s) contract nonce) as [b1|]; [|apply cbonded_extend, IH; exact Hin].
+      simpl in Hin. rewrite delete_confirms_eq in Hin.
       apply filter_In in Hin as [Hin _]. apply cbonded_extend, IH; exact Hin.
 Qed.
 
